@@ -959,7 +959,7 @@ class _Job:
         return self.kind
 
 
-@contract("stepup/core/scheduler.py::Scheduler._derive_job", props=["C03"])
+@contract("stepup/core/scheduler.py::Scheduler._derive_job", props=["C03", "C10", "C12"])
 class derive_job:
     args = dict(self=_dj_scheduler, step=ty.Make(_DJStep))
     env = dict(RunJob=lambda *a, **k: _Job("RunJob", *a, **k), ValidateDynamicJob=lambda *a, **k: _Job("ValidateDynamicJob", *a, **k),
@@ -1071,7 +1071,7 @@ def _msp_finish(c, outcome, args, old):
         sinks_calls = [1 for e in c.trace if False]
 
 
-@contract("stepup/core/workflow.py::Workflow.mark_step_pending", props=["C03", "C05", "C09"])
+@contract("stepup/core/workflow.py::Workflow.mark_step_pending", props=["C03", "C05", "C09", "C10", "C02"])
 class mark_step_pending:
     args = dict(self=common.workflow_spec(), step=ty.Make(_MspStep))
     finish = _msp_finish
